@@ -118,6 +118,10 @@ var (
 	// WAL data to snapshot. This can happen when the Raft log contains only entries
 	// that don't modify the database (e.g. cluster membership changes).
 	ErrNoWALToSnapshot = errors.New("no WAL data available for snapshot")
+
+	// ErrInvalidRequest is returned when an execute, query or unified request
+	// does not carry a Request message at all.
+	ErrInvalidRequest = errors.New("invalid request")
 )
 
 const (
@@ -1455,6 +1459,9 @@ func (s *Store) Execute(ctx context.Context, ex *proto.ExecuteRequest) ([]*proto
 	if !s.open.Is() {
 		return nil, 0, ErrNotOpen
 	}
+	if ex.Request == nil {
+		return nil, 0, ErrInvalidRequest
+	}
 
 	// Check if context is already canceled
 	if err := ctx.Err(); err != nil {
@@ -1510,6 +1517,9 @@ func (s *Store) Query(ctx context.Context, qr *proto.QueryRequest) (rows []*prot
 
 	if !s.open.Is() {
 		return nil, 0, 0, ErrNotOpen
+	}
+	if qr.Request == nil {
+		return nil, 0, 0, ErrInvalidRequest
 	}
 
 	// Check if context is already canceled
@@ -1626,6 +1636,9 @@ func (s *Store) Request(ctx context.Context, eqr *proto.ExecuteQueryRequest) ([]
 
 	if !s.open.Is() {
 		return nil, 0, 0, ErrNotOpen
+	}
+	if eqr.Request == nil {
+		return nil, 0, 0, ErrInvalidRequest
 	}
 
 	// Check if context is already canceled
